@@ -471,9 +471,15 @@ def default_body(ctx, case):
     check_close(z_none, z_exp, tol,
                 f"spline_smooth with s=None differs from s = len(y)*var(y) = {s_ref!r}")
     cubic, resid = lsq_cubic(x, y)
-    check_close(z_def, cubic(probes), tol,
-                "spline_smooth with s omitted is not the smoothing spline for s = len(y)*var(y) (which is >= the "
-                "residual of the least-squares cubic, so the fit is that cubic)")
+    if s_ref < 1e-280 and spread(y) > 0:
+        # the squares of values below 1e-140 underflow: len(y)*var(y) is 0 (or denormal) in floating point although
+        # the data vary, s = 0 is then the correctly rounded default and means interpolation, not the cubic
+        # (witness y = [0, 0, 0, 0, 6.4e-205]); only the comparison with the explicit s above applies
+        ctx.count("variance-underflow: cubic comparison skipped")
+    else:
+        check_close(z_def, cubic(probes), tol,
+                    "spline_smooth with s omitted is not the smoothing spline for s = len(y)*var(y) (which is >= the "
+                    "residual of the least-squares cubic, so the fit is that cubic)")
     cls = common_classes(case)
     m = len(y)
     std = math.sqrt(s_ref / m)
